@@ -88,8 +88,8 @@ def _run(ctx, base):
     ops = [o for o in B.op_requests() if o not in B.SKIP]
     if ctx.quick:
         cases = [("warm", (False, False), o) for o in ops]
-        cases += [("residue", (False, False), o) for o in ("put_over_stale", "putcoll_replace", "delete_coll", "move_cross", "delete_item")]
-        cases += [("cold", (True, True), o) for o in ("put_new", "putcoll_new", "move_same", "home_predef", "mkcalendar")]
+        cases += [("residue", (False, False), o) for o in ("put_over_stale", "putcoll_replace", "delete_coll", "move_over_same", "delete_item")]
+        cases += [("cold", (True, True), o) for o in ("put_new", "putcoll_new", "move_over_cross", "home_predef", "mkcalendar")]
     else:
         cases = [(sh, lay, o) for sh in C.SHAPES for lay in B.LAYOUTS for o in ops]
     ctx.log("baseline: %d traced requests" % len(cases))
@@ -137,6 +137,21 @@ def _run(ctx, base):
                         ("crash", k) if mode == "crash" else ("fail", k, err))
                     mjobs.append(dict(lay=lay, entries=un["pre_entries"], oracle=oracle, request=un["request"]))
                     meta.append(dict(case=(o, sh, tuple(lay)), k=k, label=label, mode=mode, err=err, un=un))
+            # read-side calls (open of an item / props file, scandir of a collection, open of a directory for fsync):
+            # not modelled; the monitor and the same-process follow-ups must still hold
+            rd = [r for r in un.get("reads", []) if not X.is_lock(r[2])]
+            if ctx.quick:
+                rd = ([r for r in rd if not r[3]][:1] + [r for r in rd if r[3]][-1:]) if o in (
+                    "delete_item", "put_over", "move_over_cross", "proppatch", "delete_coll", "putcoll_replace", "put_new") else []
+            for j, (name, ordinal, rel, isdir) in enumerate(rd):
+                for mode, err in [("fault", "EIO" if j % 2 == 0 else "EACCES")]:
+                    tag = "%s-%d%d-%s-r%d-%s" % (sh, lay[0], lay[1], o, j, err)
+                    jobs.append(dict(base=base, shape=sh, lay=lay, opname=o, tag=tag, inject=(mode, err, name, ordinal),
+                                     pre_abs=un["pre_abs"], post_abs=un["post_abs"], list_before=un["list_before"],
+                                     list_after=un["list_after"], allowed=allowed, names=un["names"], contents=un["contents"]))
+                    mjobs.append(None)
+                    meta.append(dict(case=(o, sh, tuple(lay)), k=-3, label="%s %s for reading" % ("scan / open of directory" if isdir else "open of", rel),
+                                     mode=mode, err=err, un=un))
             # lock-file opens precede every change: the store must stay as before
             if not ctx.quick or o in ("put_new", "delete_coll"):
                 for (name, ordinal) in un["locks"][:1]:
